@@ -17,6 +17,26 @@ pub trait Elem: Sized + Clone {
     fn key(&self) -> u64;
     /// key a clone of an element with key `k` must have (None = cannot be predicted exactly)
     fn clone_matches(orig_key: u64, clone: &Self) -> bool;
+    /// (created, destroyed) so far, for element types that can only be counted
+    fn counters() -> Option<(u64, u64)> {
+        None
+    }
+}
+/// zero-sized *and* droppable: nothing to store, but every value must still be destroyed exactly once
+impl Elem for vmon::TrackedZst {
+    const NAME: &'static str = "zst-drop";
+    fn make(_: &mut Rng) -> Self {
+        vmon::TrackedZst::new()
+    }
+    fn key(&self) -> u64 {
+        0
+    }
+    fn clone_matches(_: u64, _: &Self) -> bool {
+        true
+    }
+    fn counters() -> Option<(u64, u64)> {
+        Some(vmon::TrackedZst::counts())
+    }
 }
 impl Elem for u8 {
     const NAME: &'static str = "u8";
@@ -93,6 +113,7 @@ fn compare<T: Elem>(v: &CVec<T>, model: &[u64]) -> Option<String> {
 /// One history on element type T.  Returns false on violation.
 fn history<T: Elem + std::fmt::Debug>(ops: &[(u8, u8)], rng: &mut Rng, rep: &mut Report, init_spare: bool) -> bool {
     let mark = tracked::mark();
+    let c0 = T::counters();
     let mut model: Vec<u64> = vec![];
     // initial vector: from a Vec with exact or spare capacity
     let mut init: Vec<T> = if init_spare { Vec::with_capacity(7) } else { Vec::new() };
@@ -265,6 +286,13 @@ fn history<T: Elem + std::fmt::Debug>(ops: &[(u8, u8)], rng: &mut Rng, rep: &mut
         if let Some(d) = compare(&v, &model) {
             fail!("C11:content-diverged", d);
         }
+        if let (Some(a), Some(b)) = (c0, T::counters()) {
+            // counted elements: exactly the ones in the vector are alive
+            let (made, gone) = (b.0 - a.0, b.1 - a.1);
+            if gone > made || made - gone != model.len() as u64 {
+                fail!("C11:element-drop-count", format!("{} values created, {} destroyed, {} in the vector", made, gone, model.len()));
+            }
+        }
         if T::NAME == "tracked" {
             for k in &dropped_expected {
                 let d = tracked::drops_of(*k);
@@ -281,6 +309,12 @@ fn history<T: Elem + std::fmt::Debug>(ops: &[(u8, u8)], rng: &mut Rng, rep: &mut
     }
     let rest = model.clone();
     drop(v);
+    if let (Some(a), Some(b)) = (c0, T::counters()) {
+        if b.0 - a.0 != b.1 - a.1 {
+            rep.violation("C11:element-drop-count", &format!("[{}] after drop: {} values created, {} destroyed; ops {:?}", T::NAME, b.0 - a.0, b.1 - a.1, ops), &format!("{}:{:?}", T::NAME, ops));
+            return false;
+        }
+    }
     if T::NAME == "tracked" {
         let (leaked, multi) = tracked::since(mark);
         if !leaked.is_empty() || !multi.is_empty() {
@@ -460,6 +494,9 @@ pub fn run(args: &Args, rep: &mut Report) {
     }
     if ty == "all" || ty == "tracked" {
         run_type::<Tracked>(args, rep, &mut rng, depth);
+    }
+    if ty == "all" || ty == "zst-drop" {
+        run_type::<vmon::TrackedZst>(args, rep, &mut rng, depth);
     }
     if ty == "all" || ty == "forged" {
         let n = args.get("forged", args.count.min(1000));
